@@ -1,31 +1,135 @@
 """Which properties are claimed, with the manifest texts (single source for tools/gen_manifest.py)."""
 
 TRUSTED = ("Trusted base: Python's ast module; the semantics of the numpy / pandas / sklearn / torch / tensorflow "
-           "operations as encoded in the analyser's alias and transfer tables; in-repo code is analysed from source, "
-           "never imported or run.")
+           "operations as encoded in the analyser's alias and transfer tables (sa/alg.py, sa/labels.py, sa/shape.py); "
+           "in-repo code is analysed from source, never imported or run. Aliasing between distinct local names is not "
+           "tracked; opaque calls are assumed pure except for the modelled autograd protocol.")
 
-# id -> dict(text, note, technique, design_ref)
 CLAIMED = {}
-
 NOT_APPLICABLE = {}
+PENDING = set()
 
 
 def claim(pid, text, note, technique, design_ref):
     CLAIMED[pid] = dict(text=text, note=note + " " + TRUSTED, technique=technique, design_ref=design_ref)
 
 
-claim(
-    "C06",
-    "Static formula conformance (value numbering over the syntax tree) of the constraint moments: the U matrix columns, "
-    "P(e), P(e,g), the +/- index, gamma, bound, the eps/ratio case table (exhaustive over order cells), the base event of "
-    "each of the five parity moments, null-propagation of events through the control merge, and the loss moments' "
-    "formulas. Decides these structural necessary conditions for every input; does not evaluate gamma on values.",
-    "Not decided: equality with MetricFrame on values; pandas groupby semantics.",
-    "abstract term builder over ast + rational-function normal forms (GVN), finite order-cell evaluation of guards, "
-    "nullable-value flow",
-    "DESIGN.md §4 C06",
-)
+GVN = "abstract term builder over ast (branch-merging, loop-summarising) + rational-function normal forms (value numbering)"
 
-for _p in ["C01", "C02", "C03", "C04", "C05", "C07", "C08", "C09", "C10", "C11", "C12", "C13", "C14", "C15", "C16",
-           "C17", "C18", "C19", "C20"]:
-    NOT_APPLICABLE[_p] = "check not built yet in this session (design in DESIGN.md §4); not claimed until its rules run clean"
+claim("C01",
+      "Decides structural necessary conditions of exact disaggregation for every input: all per-sample inputs become "
+      "position-only columns of the one frame handed to the disaggregation (and the bootstrap), the metric wrapper takes "
+      "every argument from the same sub-frame through the writer's column mapping, grouping keys / Cartesian re-index / no "
+      "fill-or-drop, and the cache plumbing of overall / by_group. Does not evaluate metrics on values.",
+      "Not decided: that pandas groupby().apply evaluates the metric on exactly the group's rows; the metric callables.",
+      GVN + ", label-provenance domain, call-site wiring queries, finite cell specialisation", "DESIGN.md §4 C01")
+claim("C02",
+      "Decides, exhaustively over the finite cells (control x method x errors), that group_min/max, difference and ratio "
+      "are the documented expressions of by_group / overall (incl. the min(r,1/r) fold and the coerce map) and that the "
+      "cache writer and the public readers agree on keys and constants.",
+      "Not decided: the numerical inequalities (they follow from the decided formulas, lemma in rules/c02.py); pandas "
+      "division by zero.", GVN + ", order-cell (D-REGION) specialisation of branch conditions", "DESIGN.md §4 C02")
+claim("C03",
+      "Decides the wiring of the six named fairness metrics (base rate, data arguments, weight forwarding, aggregate and "
+      "agg dispatch), of every generated metric registration and of the derived-metric dispatcher (3-way parameter "
+      "partition, transform dispatch), plus scalar-valuedness of the base rates for all input classes.",
+      "Not decided: numerical equality with a from-the-rows computation (follows from C01 + C02 + C14 clauses).",
+      "resolved call-site queries, D-REGION over string tables, D-SHAPE rank/extent interpretation", "DESIGN.md §4 C03")
+claim("C04",
+      "Decides the necessary structure of the parity argument: common grid and common index in both optimisation routines, "
+      "interpolation / p_ignore / thresholder probability formulas, METRIC_DICT and count tables, operation pairing, "
+      "ThresholdOperation semantics.",
+      "Not decided: the tie handling of the hull / interpolation indices on values, floating point; hence not the parity "
+      "itself.", GVN + ", D-REGION, event-order queries", "DESIGN.md §4 C04")
+claim("C05",
+      "Decides the upper-hull drop test as a polynomial inequality (non-strict), push/pop protocol, frequency-weighted "
+      "objective and arg-max, and the equalized-odds count roles and objective.",
+      "Not decided: optimality against an independent optimiser.", GVN + ", event-order queries", "DESIGN.md §4 C05")
+claim("C06",
+      "Static formula conformance of the constraint moments: U matrix columns, P(e), P(e,g), the +/- index, gamma, bound, "
+      "the eps/ratio case table (exhaustive over order cells), the base event of each parity moment, null-propagation of "
+      "events through the control merge, and the loss moments' formulas.",
+      "Not decided: equality with MetricFrame on values; pandas groupby semantics.",
+      GVN + ", D-REGION, nullable-value flow (D-NULL)", "DESIGN.md §4 C06")
+claim("C07",
+      "Decides the premises of the linearity lemma: signed_weights and gamma are the documented linear maps of the same "
+      "stored data, cost roles, group-loss weights, relabel / reweight at both oracle call sites, projection formula.",
+      "Not decided: the identity on values; exactness of the base learner.", GVN, "DESIGN.md §4 C07")
+claim("C08",
+      "Decides that every early exit of the training loop is dominated by gaps[t] < nu on this iteration's gap, the "
+      "best-iterate selection formulas, lock-step (Q, gap) records from paired sources, the gap / Lagrangian / multiplier / "
+      "theta formulas, the evaluation point of L_low, the LP rows and the weight padding.",
+      "Not decided: the saddle-point guarantees themselves (need the true optimum and an exact oracle).",
+      GVN + ", event-order / dominance queries (D-ORDER)", "DESIGN.md §4 C08")
+claim("C09",
+      "Decides the per-grid-point reduction (fresh estimator copy, lambda = grid[i]), lock-step records tied to this "
+      "iteration's estimator, the selection formula / first arg-min / delegation, the grid generator formula and L1 "
+      "budget recursion, and that fit returns self.",
+      "Not decided: best-response optimality of each predictor.", GVN + ", D-ORDER", "DESIGN.md §4 C09")
+claim("C10",
+      "Decides that both pmfs are [1-p, p] by construction, the mixture is aligned with weights_ by predictor id, predict "
+      "is 1*(p >= U) from the seeded generator with p the second column, and values / probabilities handed to choice() "
+      "are ordered by the same index.",
+      "Not decided: sampling frequencies; p0, p1 in [0,1] on values.", GVN + ", dataflow queries", "DESIGN.md §4 C10")
+claim("C11",
+      "Decides the structural premises of the multiplicity law: weight forwarding to the confusion matrix, the degree-0 "
+      "homogeneous weighted-mean formulas, sample parameters as row-sliced columns, weight forwarding of the fairness "
+      "metrics, scalar results for single weighted rows.",
+      "Not decided: sklearn's weighted confusion matrix (trusted).", GVN + ", D-SHAPE, call-site queries", "DESIGN.md §4 C11")
+claim("C12",
+      "Decides for 30+ public entry points that no value that may still carry caller-chosen pandas labels reaches a "
+      "label-aligning or label-lookup operation, and that the shared validator re-indexes y / sensitive / control features.",
+      "Assumes wrapped estimators return label-free arrays and that dict-valued features hold 1-d arrays. Not decided: "
+      "invariance under joint row permutation (pandas grouping semantics).",
+      "interprocedural label-provenance (taint) analysis over the term/event model (D-LABEL)", "DESIGN.md §4 C12")
+claim("C13",
+      "Decides exactly (Sardinas-Patterson) that the escape-then-join scheme is uniquely decodable for every arity, string "
+      "comparison, that every multi-column producer reaches the merge through the validator under the same test at fit "
+      "and predict time, key agreement of the interpolation table, and injectivity of the control/event code.",
+      "Trusts that str() of a number contains no comma.", "D-CODE (unique decodability) + call-graph / who-may-call queries",
+      "DESIGN.md §4 C13")
+claim("C14",
+      "Decides sibling agreement of the four rate functions, the label helper on all cells (exhaustive), scalar results for "
+      "all input classes (D-SHAPE) and the selection_rate / mean_prediction / count formulas.",
+      "Not decided: TPR+FNR=1 on values (row normalisation in sklearn).", "sibling cross-check, D-REGION, D-SHAPE, " + GVN,
+      "DESIGN.md §4 C14")
+claim("C15",
+      "Decides per-column centring (extent m_s for m_s = 1 and >= 2), the least-squares and blend formulas, that transform "
+      "uses the stored statistics only, and the split order.",
+      "Not decided: numerical zero covariance (follows from least squares given the decided clauses).", "D-SHAPE, " + GVN,
+      "DESIGN.md §4 C15")
+claim("C16",
+      "Decides for both back ends: unit and update formulas (solved for the projection scalar), the contraction signature "
+      "of the projection for rank 1 and 2 (Frobenius), gradient routing, the PyTorch autograd protocol order, the "
+      "adversary's input, and sibling agreement.",
+      "Not decided: autograd correctness; optimiser internals.", "D-CONTR contraction signatures, " + GVN + ", D-ORDER",
+      "DESIGN.md §4 C16")
+claim("C17",
+      "Decides the batch arithmetic, the per-step event order (train_step, increment, max_iter stop, callbacks, callback "
+      "stop), partial_fit's single step, and the predict dispatch over target types (exhaustive) incl. threshold default.",
+      "Not decided: equality of trained weights between histories.", GVN + ", D-ORDER, D-REGION", "DESIGN.md §4 C17")
+claim("C18",
+      "Decides the resampling call constants, the seed stream per random_state class, the quantile calls and rebuilding, "
+      "index alignment, CI cache mirroring of the point-estimate cache and the constructor plumbing.",
+      "Not decided: ordering / enclosure on values (numpy quantile monotonicity is trusted).", "call-site queries, " + GVN,
+      "DESIGN.md §4 C18")
+claim("C19",
+      "Decides over all estimator classes: no constructor-parameter write in fit, fit returns self, no history-dependent "
+      "existence test / read influencing fit, predict-type methods write no state, no one-shot latch reachable from fit, "
+      "reload completeness of every Moment, no un-copied estimator fit, no unpicklable value in stored state.",
+      "Not decided: bit-equality of refitted models; determinism of wrapped estimators.",
+      "life-cycle effect analysis over the event stream (D-LIFE)", "DESIGN.md §4 C19")
+claim("C20",
+      "Decides guard dominance and accepted regions: MetricFrame length / name / duplicate checks, the shared validator's "
+      "raise conditions, binary-label enforcement at every classification entry point, ThresholdOptimizer tables "
+      "(exhaustive), degenerate-label guard, constructor parameter regions (exhaustive over order cells), fitted-checks.",
+      "Not decided: that third-party validators raise as documented (trusted).", "D-ORDER dominance + D-REGION accepted regions",
+      "DESIGN.md §4 C20")
+
+# properties whose check currently cannot run clean are withheld here (with the reason) until they do
+WITHHELD = {"C19": "check built (sa/rules/c19.py) but withheld until the repair of two genuine defects it reports "
+                   "(adversarial fit re-initialisation, CorrelationRemover.transform reset) has been validated against the baseline"}
+
+for _p, _r in WITHHELD.items():
+    NOT_APPLICABLE[_p] = _r
+    CLAIMED.pop(_p, None)
